@@ -40,6 +40,12 @@ def interval(kind, rng):
     if kind == "offset":
         a = float(rng.normal()) * 10.0 ** rng.integers(-3, 6)
         return a, a + max(abs(a) * 1e-3, 1e-9) * float(rng.uniform(1, 1e4))
+    if kind == "far-narrow":
+        # a narrow interval far from the origin: width 1e6 .. 1e8 ulp of the (non-dyadic) offset; the nodes can only be
+        # as good as that ulp, but half-length and weights depend on b - a alone
+        c = float(rng.choice([-1.0, 1.0])) * float(rng.uniform(1, 10)) * 10.0 ** int(rng.integers(0, 9))
+        w = float(np.spacing(abs(c))) * 10.0 ** float(rng.uniform(6, 8))
+        return (c, c + w) if rng.random() < .7 else (c + w, c)
     if kind == "tiny":
         return 0.0, float(rng.uniform(1, 9)) * 1e-300
     if kind == "huge":
@@ -59,6 +65,8 @@ def cases(seed, tier):
             out.append({"family": "rule", "n": n, "ival": IVALS[(n + seed) % len(IVALS)], "sub": int(rng.integers(0, 2**31))})
         for n in (300, 500, 1000):
             out.append({"family": "rule", "n": n, "ival": "unit", "sub": int(rng.integers(0, 2**31))})
+        for n in range(1, 31):
+            out.append({"family": "rule", "n": n, "ival": "far-narrow", "sub": int(rng.integers(0, 2**31))})
         nh, n2 = 120, 80
     else:
         for n in range(1, 201):
@@ -67,6 +75,9 @@ def cases(seed, tier):
         for n in (300, 500, 1000, 2000):
             for iv in ("unit", "random", "reversed"):
                 out.append({"family": "rule", "n": n, "ival": iv, "sub": int(rng.integers(0, 2**31))})
+        for rep in range(20):
+            for n in range(1, 31):
+                out.append({"family": "rule", "n": n, "ival": "far-narrow", "sub": int(rng.integers(0, 2**31))})
         nh, n2 = 1500, 1200
     for i in range(nh):
         out.append({"family": "history-func" if i % 2 else "history-data", "sub": int(rng.integers(0, 2**31))})
@@ -88,7 +99,8 @@ def _o_gauleg(call):
     x, w = call.result
     L = x2 - x1
     aL = abs(L)
-    tol = 1e-9 * aL + 8 * np.finfo(float).eps * max(abs(x1), abs(x2))
+    tol = 1e-9 * aL + 8 * np.finfo(float).eps * max(abs(x1), abs(x2))       # abscissae: also limited by the ulp of the offset
+    tolw = 1e-9 * aL                                                          # weights depend on b - a only
     bad = None
     key = None
     if x.shape != (n,) or w.shape != (n,):
@@ -111,14 +123,14 @@ def _o_gauleg(call):
             bad = "abscissae not symmetric about the midpoint"
         elif not np.all(s * w > 0):
             bad = "weights do not all have the sign of (b-a)"
-        elif np.abs(w - w[::-1]).max() > tol:
+        elif np.abs(w - w[::-1]).max() > tolw:
             bad = "weights not symmetric"
-        elif abs(w.astype(LD).sum() - (LD(x2) - LD(x1))) > tol:
-            bad = "weights sum to %r, not b-a=%r" % (float(w.sum()), L)
+        elif abs(w.astype(LD).sum() - (LD(x2) - LD(x1))) > tolw:
+            bad = "weights sum to %r, not b-a=%r (relative error %.3g)" % (float(w.sum()), L, float(abs(w.astype(LD).sum() - (LD(x2) - LD(x1))) / aL))
         elif np.abs(x - xe).max() > tol:
             i = int(np.abs(x - xe).argmax())
             bad = "abscissa %d = %r differs from the reference rule %r" % (i, float(x[i]), float(xe[i]))
-        elif np.abs(w - we).max() > tol:
+        elif np.abs(w - we).max() > tolw:
             i = int(np.abs(w - we).argmax())
             bad = "weight %d = %r differs from the reference rule %r" % (i, float(w[i]), float(we[i]))
     if bad:
@@ -130,7 +142,10 @@ def _o_gauleg(call):
         xm, xl = (LD(x1) + LD(x2)) / 2, (LD(x2) - LD(x1)) / 2
         t = (x.astype(LD) - xm) / xl
         grid = np.linspace(-1, 1, 2001).astype(LD)
-        for deg in sorted(set([2 * n - 1, 2 * n - 2 if n > 1 else 0, int(rng.integers(0, 2 * n))])):
+        # far from the origin the abscissae are only as good as the ulp of the offset: only the constant polynomial (the
+        # sum of the weights) can be asked to 1e-9 (b-a) there
+        degrees = [0] if fam == "far-narrow" else sorted(set([2 * n - 1, 2 * n - 2 if n > 1 else 0, int(rng.integers(0, 2 * n))]))
+        for deg in degrees:
             c = rng.normal(size=deg + 1).astype(LD)
             if rng.random() < .3:
                 c *= (10.0 ** rng.uniform(-3, 3, size=deg + 1)).astype(LD)
